@@ -43,6 +43,7 @@ ASSUMPTIONS = [
     "keypoints keep >= 3 output cells (in original px) from the frame border and the crop contains the animal (crop_hw constructed >= scaled extent about the anchor + 3 cells)",
     "animals are separated by more than the crop diagonal (top-down), so 'which instance is centred' is unambiguous",
     "sleap-io opencv image plugin returns negatively strided RGB views that torch.from_numpy rejects: the harness selects the imageio plugin (public sleap-io switch)",
+    "blob (1-channel) frames are uint8: their flat top of radius 0.063*sigma px is added to the tolerance",
     "ground-truth-centroid mode (centroid_config=None) is outside the statement (network-predicted centroids) and not exercised",
 ]
 
@@ -126,6 +127,24 @@ def anchors_of(case):
                 lst.append([(min(xs) + max(xs)) / 2, (min(ys) + max(ys)) / 2])
         out[fid] = lst
     return out
+
+
+def grid_frac(a, stride, s_total):
+    """Distance (in output cells) of original coordinate `a` from the nearest output cell of a stage whose input is the
+    frame resized by s_total (half-pixel-centre convention) and whose output stride is `stride`."""
+    u = ((a + 0.5) * s_total - 0.5) / stride
+    return abs(u - round(u))
+
+
+def centroid_general_position(case):
+    """Local-peak (centroid) detection needs a unique nearest cell: no anchor within 0.05 cell of a tie."""
+    eff = sizematch(case["h"], case["w"], case["max_h"], case["max_w"])[0]
+    s = case["scale"] * eff
+    for lst in anchors_of(case).values():
+        for a in lst:
+            if grid_frac(a[0], case["stride"], s) > 0.45 or grid_frac(a[1], case["stride"], s) > 0.45:
+                return False
+    return True
 
 
 def stage_sigma(stride, s_total):
@@ -235,6 +254,10 @@ def tolerance(case, stage):
     s_tot = s * eff
     base = (0.5 * stride + 0.5 * abs(1 - s)) / s_tot + 0.5 * abs(1 - eff) / eff + 0.05
     slack = max(ex, ey) / eff + max(rx, ry) / s_tot
+    if case["image"] == "blob":
+        # uint8 blob frames have a flat top: every pixel within r of the centre rounds to 255
+        # (255*exp(-r^2/2sigma^2) >= 254.5  <=>  r <= 0.0627*sigma) and any of them may be the argmax
+        slack += 0.0627 * case["blob_sigma"] + 0.05
     return base + slack, s_tot
 
 
@@ -243,6 +266,10 @@ def evaluate(case):
 
     res = Result()
     kind = case["kind"]
+    if kind == "topdown" and not centroid_general_position(case):
+        res.rejected = True  # statement: keypoint layouts in general position (a centroid half-way between two
+        res.cls("rejected:centroid-not-in-general-position")  # cells is a plateau, legitimately not a strict local peak)
+        return res
     d = env.scratch_dir("c02")
     try:
         slp, paths, skel = build_inputs(case, d)
@@ -252,7 +279,8 @@ def evaluate(case):
         res.cls(f"kind={kind}", f"image={case['image']}", f"refine={case['refinement']}", f"scale={case['scale']}",
                 "sizematch=" + ("none" if eff == 1.0 and case["max_h"] in (None, case["h"]) else ("up" if eff > 1 else ("down" if eff < 1 else "pad"))))
         if kind == "topdown":
-            res.cls(f"scale2={case['scale2']}", f"kind|scales=topdown|{case['scale']}|{case['scale2']}")
+            na = max(len(f) for f in case["frames"])
+            res.cls(f"scale2={case['scale2']}", f"kind|scales=topdown|{case['scale']}|{case['scale2']}", f"topdown|s2={case['scale2']}|animals={min(na, 2)}")
         else:
             res.cls(f"kind|scale=single|{case['scale']}")
         results = {}
@@ -373,12 +401,38 @@ def strategy(tier):
         stride2 = draw(st.sampled_from([1, 2, 4]))
         max_stride = draw(st.sampled_from([1, 8, 16, 32]))
         max_stride2 = draw(st.sampled_from([1, 8, 16]))
-        h = draw(st.integers(12, 50)) * 4
-        w = draw(st.integers(12, 50)) * 4
-        if draw(st.integers(0, 3)) == 0:  # arbitrary (non multiple of 4) sizes too
-            h += draw(st.integers(1, 3))
-            w += draw(st.integers(1, 3))
         smc = draw(st.sampled_from(["none", "equal", "larger", "smaller", "mixed"]))
+        eff_guess = {"none": 1.0, "equal": 1.0, "larger": 1.15, "smaller": 0.8, "mixed": 0.85}[smc]
+
+        def geometry(eff_):
+            s_last_ = (s2 if kind == "topdown" else s1) * eff_
+            st_last_ = stride2 if kind == "topdown" else stride
+            cell_ = st_last_ / s_last_
+            cell1_ = stride / (s1 * eff_)
+            margin_ = 3.0 * max(cell_, cell1_) + 2.0 / min(1.0, s1 * eff_, s_last_)
+            return cell_, cell1_, margin_
+
+        want = draw(st.integers(1, 3)) if kind == "topdown" else 1
+        gx_, gy_ = draw(st.sampled_from([(1, 1)] if want == 1 else ([(2, 1), (1, 2)] if want == 2 else [(2, 2), (3, 1), (1, 3)])))
+        crop = None
+        if kind == "topdown":
+            cell_, cell1_, margin_ = geometry(eff_guess)
+            crop = draw(st.sampled_from([32, 48, 64, 96]))
+            ext_ = min((crop / 2.0 - 3.0 * stride2 - 2.0) / (s2 * eff_guess), 30.0)
+            while ext_ < 4.0 and crop < 96:
+                crop = {32: 48, 48: 64, 64: 96}[crop]
+                ext_ = min((crop / 2.0 - 3.0 * stride2 - 2.0) / (s2 * eff_guess), 30.0)
+            sep_ = math.hypot(crop, crop) / (s2 * eff_guess) + 2 * ext_ + 6 * max(cell_, cell1_)
+            need_w = 2 * (margin_ + ext_) + (gx_ - 1) * sep_ + 8
+            need_h = 2 * (margin_ + ext_) + (gy_ - 1) * sep_ + 8
+            w = int(min(250, max(48, math.ceil(need_w) + draw(st.integers(0, 24)))))
+            h = int(min(250, max(48, math.ceil(need_h) + draw(st.integers(0, 24)))))
+        else:
+            h = draw(st.integers(12, 50)) * 4
+            w = draw(st.integers(12, 50)) * 4
+            if draw(st.integers(0, 3)) == 0:  # arbitrary (non multiple of 4) sizes too
+                h += draw(st.integers(1, 3))
+                w += draw(st.integers(1, 3))
         if smc == "none":
             mh, mw = None, None
         elif smc == "equal":
@@ -389,8 +443,8 @@ def strategy(tier):
             mh, mw = max(40, h - draw(st.integers(1, 60))), max(40, w - draw(st.integers(1, 60)))
         else:
             mh, mw = h + draw(st.integers(1, 60)), max(40, w - draw(st.integers(1, 60)))
-        mh = None if mh is None else min(mh, 256)
-        mw = None if mw is None else min(mw, 256)
+        mh = None if mh is None else min(mh, 300)
+        mw = None if mw is None else min(mw, 300)
         eff = sizematch(h, w, mh, mw)[0]
         n_nodes = 1 if image == "blob" else draw(st.integers(2, 5))
         anchor = draw(st.one_of(st.none(), st.integers(0, n_nodes - 1))) if kind == "topdown" else None
@@ -404,12 +458,10 @@ def strategy(tier):
         margin = 3.0 * max(cell, cell1) + 2.0 / min(1.0, s1 * eff, s_last)
         blob_sigma = max(2.0, 1.6 * max(cell, cell1))
         if kind == "topdown":
-            crop = draw(st.sampled_from([32, 48, 64, 80, 96]))
             ext = (crop / 2.0 - 3.0 * st_last - 2.0) / (s2 * eff)  # max extent about the anchor that fits the crop (orig px)
             ext = min(ext, 30.0)
             sep = math.hypot(crop, crop) / (s2 * eff) + 2 * ext + 6 * max(cell, cell1)
         else:
-            crop = None
             ext = min(h, w) / 2.0 - margin
             sep = None
         frames = []
@@ -425,10 +477,7 @@ def strategy(tier):
                     pts.append([round(px, 2), round(py, 2)])
                 animals.append(pts)
             else:
-                if ext < 2.0:
-                    k = 0
-                else:
-                    k = draw(st.integers(1, 4))
+                k = 0 if ext < 2.0 else want
                 gx = max(1, int((w - 2 * (margin + ext)) // sep) + 1)
                 gy = max(1, int((h - 2 * (margin + ext)) // sep) + 1)
                 slots = [(ix, iy) for iy in range(gy) for ix in range(gx)]
@@ -452,6 +501,28 @@ def strategy(tier):
                     keep = draw(st.integers(0, n_nodes - 1))
                     pts = [p if (i == keep or draw(st.booleans())) else None for i, p in enumerate(pts)]
                 out.append(pts)
+            if kind == "topdown":
+                # translate each animal slightly so that its centroid is in general position on the centroid grid
+                fixed = []
+                for pts in out:
+                    vis = [p for p in pts if p is not None]
+                    if not vis:
+                        fixed.append(pts)
+                        continue
+                    if anchor is not None and pts[anchor] is not None:
+                        c = pts[anchor]
+                    else:
+                        c = [(min(p[0] for p in vis) + max(p[0] for p in vis)) / 2, (min(p[1] for p in vis) + max(p[1] for p in vis)) / 2]
+                    sh = []
+                    for ax_ in (0, 1):
+                        d_ = 0.0
+                        for _try in range(4):
+                            if grid_frac(c[ax_] + d_, stride, s1 * eff) <= 0.38:
+                                break
+                            d_ += 0.27 * stride / (s1 * eff)
+                        sh.append(d_)
+                    fixed.append([None if p is None else [round(p[0] + sh[0], 3), round(p[1] + sh[1], 3)] for p in pts])
+                out = fixed
             frames.append(out)
         return {
             "kind": kind, "image": image, "scale": s1, "scale2": s2, "refinement": refinement, "stride": stride, "stride2": stride2,
@@ -469,7 +540,7 @@ def summarize(case):
 def parts(tier):
     return [
         Part(name="predictor", evaluate=evaluate, strategy=lambda: strategy(tier), summarize=summarize,
-             budget={"quick": 60, "thorough": 1600}, min_nontrivial={"quick": 8, "thorough": 250}),
+             budget={"quick": 160, "thorough": 2400}, min_nontrivial={"quick": 20, "thorough": 300}),
     ]
 
 
